@@ -26,6 +26,9 @@ ROUND_TRIP = [
     ('quoted keys', '"a b".\'c\' = 1\n[ "x y" . z ]\n\'k\' = true\n'),
     ('interleaved tables and arrays of tables', '[[a]]\n[a.b]\nx=1\n[[a]]\n[a.b]\nx=2\n[c]\n[[a]]\n'),
     ('super-table after several sub-tables', '[a.x]\n[a.y]\nq = 1\n[a]\nk = 1\n[a.z]\n'),
+    ('arrays', 'a = [1, 2]\nb = [ 1 , "x" , ] # c\ne = []\nf = [ ]\nm = [\n  1, # one\n  2\n]\nn = [ [ 1 ], [ ], [[2]] ]\no = [\n  # only a comment\n]\n'),
+    ('inline tables', 't = { a = 1, b.c = "x" }\ne = {}\nf = { }\nv = { a = { b = [ { c = 1 } ] } }\n"q k" = { \'x y\' . z = true }\n'),
+    ('arrays of inline tables below a header', '[s]\npts = [ { x = 1, y = 2 }, { x = 3, y = 4 } ]\nr.q = [ true ]\n'),
     ('no final newline after a key-value pair', 'x = 1'),
     ('no final newline after a commented key-value pair', 'x = 1\ny = 2 # c'),
     ('no final newline after a header', 'x = 1\n[a]'),
@@ -36,6 +39,8 @@ ROUND_TRIP = [
     ('array-of-tables headers spelled with different spacing', '[[ aot ]]\n[[aot]]\n'),
 ]
 
+# (documents of class U1 — a dotted key that passes through a table existing only as the super-table of a longer header — are left out: the specification does not decide
+# them, this implementation refuses them, the reference decoder accepts them; DESIGN.md 3.2)
 VERDICTS = [
     ('x = 1\nx = 2\n', 'a key twice'),
     ('x = 1\n"x" = 2\n', 'a key twice, once quoted'),
@@ -55,6 +60,26 @@ VERDICTS = [
     ('[[a]]\nb = 1\n[[a.b]]\n', 'a nested array header over a value'),
     ('[[a.b]]\n[a]\nb.c = 1\n', 'a dotted key through an array of tables'),
     ('[a.b]\nc.x = 1\n[a]\nb.c.y = 2\n', 'a dotted key through a table defined by a header'),
+    ('t = { a = 1, a = 2 }\n', 'a key twice in an inline table'),
+    ('t = { a = {}, a.b = 1 }\n', 'a dotted key into an inline table written with braces'),
+    ('t = { a = {}, a.b.c = 1 }\n', 'a longer dotted key through an empty inline table written with braces'),
+    ('t = { a.b = {}, a.b.c.d = 1 }\n', 'a dotted key through an empty inline table below a dotted key'),
+    ('t = { a.b = 1, a = 2 }\n', 'a value over a dotted-key table in an inline table'),
+    ('t = { a.b = 1, a.b.c = 2 }\n', 'a dotted key through a value in an inline table'),
+    ('t = { a.b = 1, a.c = 2, a.d.e = 3 }\n', 'dotted keys sharing a prefix in an inline table (valid)'),
+    ('t = { a = { b = 1 } }\n[t.a]\n', 'a header into an inline table'),
+    ('t = { a = 1 }\nt.b = 2\n', 'a dotted key into an inline table'),
+    ('t = { a = 1 }\n[t]\n', 'a header over an inline table'),
+    ('a = [ { b = 1 } ]\n[[a]]\n', 'an array header over an array value'),
+    ('[t]\nu = { a = 1 }\n[t.u.v]\n', 'a header below an inline table'),
+    ('t = { a = [ { b = 1 }, { b = 1 } ], c = {} }\n', 'the same key in two inline tables of an array (valid)'),
+    ('[a]\nb.c = 1\n[a.b.x.y]\n[a.b.x]\n', 'a header for a table implied below a dotted-key table (valid)'),
+    ('[a]\nb.c = 1\n[a.b.x.y]\nk = 1\n[a.b.x]\nk = 2\n', 'tables implied by a header below a dotted-key table, defined later (valid)'),
+    ('a.b.c = 1\n[a.b.d]\n', 'a sub-table of a dotted-key table by header (valid)'),
+    ('a.b = 1\n[a.x.y]\n[a.x]\n', 'a header path through a dotted-key table, its middle defined later (valid)'),
+    ('[a.b.c.d]\n[a.b.c]\n[a.b]\n[a]\n[a.b.c.d.e]\n', 'a long header path defined from the inside out (valid)'),
+    ('[a]\nb.c.d = 1\nb.c.e = 2\nb.f = 3\n[a.b.c.g]\n[a.b.h]\n', 'sub-tables below nested dotted-key tables (valid)'),
+    ('[a]\nb.c.d = 1\n[a.b.c]\n', 'a header for a nested dotted-key table'),
     ('[a]\n[a.b]\n[a.c]\nb = 1\n', 'different sub-tables and keys (valid)'),
     ('[a.b]\n[a]\nx = 1\n[a.c]\n', 'super-table after sub-table (valid)'),
     ('[[a]]\n[a.b]\n[[a]]\n[a.b]\n', 'the same sub-table in two array elements (valid)'),
@@ -80,6 +105,10 @@ def plain(item):
             return [plain(x) if not (isinstance(deref(x), tuple) and deref(x)[0] == 'struct') else plain_table(x) for x in vals.items]
         if nm == I + 'Value':
             return plain(item[2][0])
+        if nm == V + 'Array':
+            return [plain(x) for x in deref(deref(item[2][0])[2]['values']).items]
+        if nm == V + 'InlineTable':
+            return plain_table(item[2][0])
         if nm in (V + 'Integer', V + 'Boolean', V + 'String'):
             v = deref(deref(item[2][0])[2]['value'])
             return v
@@ -165,7 +194,7 @@ def r_verdicts(rep, facts, rid='C09/R10'):
             rep.check(R, key, got == ref, 'accepted, same tree', f'{text!r:.160} ({what}) is built as {got!r:.200}; it denotes {ref!r:.200}')
 
 
-STATEMENTS = ['[a]', '[a.b]', '[a.b.c]', '[[a]]', '[[a.b]]', 'a = 1', 'b = 1', 'a.b = 1', 'b.c = 1', 'b.c.y = 2', 'c.x = 1', '[b]']
+STATEMENTS = ['[a]', '[a.b]', '[a.b.c]', '[[a]]', '[[a.b]]', 'a = 1', 'b = 1', 'a.b = 1', 'b.c = 1', 'b.c.y = 2', 'c.x = 1', '[b]', 'a = { b = 1 }', 'b = { c.y = 2 }']
 _FACTS = None
 
 
